@@ -82,6 +82,7 @@ fn main() {
             }
             let seed = std::env::var("VERIF_SEED").ok().and_then(|s| s.parse::<u64>().ok()).unwrap_or(1);
             let ctx = Ctx::new(&id, tier, seed);
+            inproc::watchdog_identity(&id, tier.name(), seed);
             let r = std::panic::catch_unwind(std::panic::AssertUnwindSafe(|| checks::run(&ctx)));
             match r {
                 Ok(Ok(())) => {}
